@@ -34,7 +34,7 @@ RULE = ("Round 8: before its session is claimed an association also gets datagra
         "deliveries checked"
         ". Round-5 additions: 12% of the valid traffic are the messages whose content the proxy reads on the way through (owner-say chat with RLV-looking and near-RLV text incl. bare '@', leading whitespace, missing NUL, invalid UTF-8; region handshakes; agent data updates; chat commands); a template-conformant datagram (independent encoder) that the library's decoder refuses is a violation, not a harness failure"
         ". Round 7: one association sends to 1400 (thorough 5000) distinct unrelated addresses; every 64 the open circuit's traffic must still be delivered once in both directions; extras with isolated zeros"
-        ". Round 9: 8% of the valid traffic carries the ACK flag with a trailer that counts no acks; associations opened through the real SOCKS5 control-connection handler (stand-in sockets) while other control connections come and go (logout, failed greetings, unsupported commands)")
+        ". Round 9: 8% of the valid traffic carries the ACK flag with a trailer that counts no acks; associations opened through the real SOCKS5 control-connection handler (stand-in sockets) while other control connections come and go (logout, failed greetings, unsupported commands). Round 11: the viewer comes back on another UDP port of the same host between an earlier (refused) datagram to a simulator and the UseCircuitCode that opens or re-opens the circuit; the circuit then belongs to the new port")
 ASSUMPTIONS = [
     "an open circuit = UseCircuitCode seen from the viewer for a region the session knows, not (yet) closed by "
     "CloseCircuit/DisableSimulator; nothing is demanded for closed circuits until a new UseCircuitCode",
@@ -43,7 +43,7 @@ ASSUMPTIONS = [
     "valid datagram",
     "content intact = same message name, blocks/values, flags, packet id and acks after decoding both sides",
 ]
-MUST_REACH = {"control_connection_events": 20, "deliveries_through_served_associations": 100, "delivered_with_ack_flag_and_empty_trailer": 50, "region_handshakes_with_viewer_object_cache_enabled": 20, "viewer_object_cache_consulted_at_region_hello": 20, "valid_out_delivered": 300, "valid_in_delivered": 300, "garbage_datagrams": 300, "templates_covered": 300,
+MUST_REACH = {"circuits_opened_from_another_viewer_port": 30, "refused_datagrams_before_the_viewer_moved": 20, "control_connection_events": 20, "deliveries_through_served_associations": 100, "delivered_with_ack_flag_and_empty_trailer": 50, "region_handshakes_with_viewer_object_cache_enabled": 20, "viewer_object_cache_consulted_at_region_hello": 20, "valid_out_delivered": 300, "valid_in_delivered": 300, "garbage_datagrams": 300, "templates_covered": 300,
               "discard_random": 20, "discard_truncated": 20, "discard_unknown_host": 10, "discard_unregistered_circuit": 10,
               "discard_banned": 5, "discard_bad_socks": 20, "discard_presession": 5, "reopened_circuits": 3, "closing_messages_checked": 3, "sessions_claimed_out_of_login_order": 2, "sequences_deferred_parsing": 5, "sequences_eager_parsing": 5,
               "same_ip_sequences": 2, "multi_region_deliveries": 50,
@@ -338,7 +338,8 @@ def _run_sequence(ctx, rng, rig, seq_seed, same_ip, vocache=None):
         else:
             circ.out_id += 1
         before = len(rig.sendlog)
-        exc = a.from_sim(circ.addr, data) if direction_in else a.from_viewer(circ.addr, data)
+        v_addr = getattr(circ, "viewer_addr", a.client_addr)
+        exc = a.from_sim(circ.addr, data) if direction_in else a.raw(socks_wrap(circ.addr, data), v_addr)
         new = rig.sendlog[before:]
         history.append(("in" if direction_in else "out", name, circ.sess_idx, circ.slot))
         wit = dict(wit_base, direction="in" if direction_in else "out", message=name, datagram=data[:300],
@@ -358,7 +359,7 @@ def _run_sequence(ctx, rng, rig, seq_seed, same_ip, vocache=None):
         if via != a.name:
             ctx.violation(tag + "wrong-association", "forwarded through another association's socket", dict(wit, via=via))
             return
-        expect_addr = a.client_addr if direction_in else circ.addr
+        expect_addr = v_addr if direction_in else circ.addr
         if addr != expect_addr:
             ctx.violation(tag + "wrong-peer", "forwarded to the wrong address", dict(wit, got=addr, want=expect_addr))
             return
@@ -523,12 +524,29 @@ def _run_sequence(ctx, rng, rig, seq_seed, same_ip, vocache=None):
                           dict(wit_base, side="sim", what=what, before=repr(snap_before)[:300], after=repr(snapshot(rig, assocs))[:300]))
             return
 
+    port_seq = [0]
+
     def open_circuit(circ):
         a = assocs[circ.sess_idx]
+        # Round 11: a viewer's UDP socket may come back on another port (same host) between its earlier datagrams to a simulator
+        # and the UseCircuitCode that opens (or opens again) the circuit: the circuit belongs to the socket that opened it
+        if not circ.open and rng.random() < 0.35:
+            old_addr = getattr(circ, "viewer_addr", a.client_addr)
+            if rng.random() < 0.7:
+                # something for this simulator from the old port first (what becomes of it is not judged here)
+                b4 = len(rig.sendlog)
+                _, early, _ = make_valid(rng, templates, False, circ.out_id)
+                a.raw(socks_wrap(circ.addr, early), old_addr)
+                ctx.count("refused_datagrams_before_the_viewer_moved" if not rig.sendlog[b4:] else "datagrams_let_through_before_the_viewer_moved")
+            port_seq[0] += 1
+            circ.viewer_addr = (a.client_addr[0], 50000 + port_seq[0])
+            ctx.count("circuits_opened_from_another_viewer_port")
+        elif not hasattr(circ, "viewer_addr"):
+            circ.viewer_addr = a.client_addr
         data = use_circuit_code(sessions[circ.sess_idx], circ.out_id)
         circ.out_id += 1
         before = len(rig.sendlog)
-        exc = a.from_viewer(circ.addr, data)
+        exc = a.raw(socks_wrap(circ.addr, data), circ.viewer_addr)
         new = rig.sendlog[before:]
         history.append(("out", "UseCircuitCode", circ.sess_idx, circ.slot))
         wit = dict(wit_base, message="UseCircuitCode", region_slot=circ.slot, session=circ.sess_idx, reopened=circ.ever_opened,
